@@ -19,7 +19,7 @@ func ruleIDX5(c *Ctx) []Ob {
 		return g != nil && r.isMetaWriter(c.declared(g))
 	}
 	for _, fn := range c.LibFuncs {
-		if c.pkgRel(fn) != "" || fn.Parent() != nil {
+		if c.pkgRel(fn) != "" {
 			continue
 		}
 		// index creation: a closure adding to an index is fed by a scan in this function
@@ -415,18 +415,35 @@ func rulePLAN7(c *Ctx) []Ob {
 		if c.pkgRel(builder) != "" {
 			continue
 		}
-		// the builder allocates the sort node
-		var sortAlloc *ssa.Alloc
+		// the builder creates the sort node: a literal, or a call of a constructor returning one
+		var sortAlloc ssa.Instruction
+		isSortPtr := func(t types.Type) bool {
+			p, ok := t.Underlying().(*types.Pointer)
+			if !ok {
+				return false
+			}
+			n, ok := p.Elem().(*types.Named)
+			return ok && n.Obj().Pkg() != nil && n.Obj().Pkg().Path() == c.ModPath && c.nodeKind(n) == "sort"
+		}
 		for _, b := range builder.Blocks {
 			for _, in := range b.Instrs {
-				if al, ok := in.(*ssa.Alloc); ok {
-					if n, ok := al.Type().Underlying().(*types.Pointer).Elem().(*types.Named); ok && n.Obj().Pkg() != nil && n.Obj().Pkg().Path() == c.ModPath && c.nodeKind(n) == "sort" {
-						sortAlloc = al
+				switch x := in.(type) {
+				case *ssa.Alloc:
+					if isSortPtr(x.Type()) {
+						sortAlloc = x
+					}
+				case *ssa.Call:
+					if g := staticCallee(x); g != nil && c.IsLib(g) && g.Signature.Results().Len() == 1 && isSortPtr(g.Signature.Results().At(0).Type()) && c.returnsFresh(c.declared(g)) {
+						sortAlloc = x
 					}
 				}
 			}
 		}
 		if sortAlloc == nil {
+			continue
+		}
+		// a constructor itself is not the builder
+		if builder.Signature.Results().Len() == 1 && isSortPtr(builder.Signature.Results().At(0).Type()) {
 			continue
 		}
 		// the flag: a bool result of a call, tested on the way to the allocation
@@ -445,8 +462,38 @@ func rulePLAN7(c *Ctx) []Ob {
 					continue
 				}
 				for _, ex := range resultValues(call, bi) {
-					guards := guardEdges(builder, func(cond ssa.Value, branch bool) bool { return cond == ex && !branch })
-					if !guardedBy(builder, sortAlloc.Block(), guards) {
+					// the flag flows (through !, phi, &&/|| joins) into a condition that decides
+					// whether the sort node is created
+					derived := map[ssa.Value]bool{ex: true}
+					for changed := true; changed; {
+						changed = false
+						for v := range derived {
+							for _, r := range realReferrers(v) {
+								switch x := r.(type) {
+								case *ssa.UnOp:
+									if !derived[x] {
+										derived[x], changed = true, true
+									}
+								case *ssa.Phi:
+									if !derived[x] {
+										derived[x], changed = true, true
+									}
+								case *ssa.BinOp:
+									if !derived[x] {
+										derived[x], changed = true, true
+									}
+								}
+							}
+						}
+					}
+					guards := guardEdges(builder, func(cond ssa.Value, branch bool) bool { return derived[cond] })
+					decides := false
+					for _, g := range guards {
+						if guardedBy(builder, sortAlloc.Block(), []edge{g}) {
+							decides = true
+						}
+					}
+					if !decides {
 						continue
 					}
 					found = true
@@ -753,4 +800,360 @@ func ruleKEY6(c *Ctx) []Ob {
 		})
 	}
 	return o.list
+}
+
+// ---------------------------------------------------------------- PLAN8
+
+// isFieldRefPredicate: a library function func(interface{}) bool that recognises
+// field-reference operands: it (transitively) asks query.IsField / asserts
+// *query.field, and tests the "$" prefix of strings.
+func (c *Ctx) isFieldRefPredicate(f *ssa.Function) bool {
+	if f == nil || !c.IsLib(f) || f.Signature.Params().Len() != 1 || f.Signature.Results().Len() != 1 {
+		return false
+	}
+	if b, ok := f.Signature.Results().At(0).Type().Underlying().(*types.Basic); !ok || b.Kind() != types.Bool {
+		return false
+	}
+	hasField, hasDollar := false, false
+	for g := range c.staticReach(f) {
+		if g == c.lookupFunc("query", "IsField") {
+			hasField = true
+		}
+		for _, b := range g.Blocks {
+			for _, in := range b.Instrs {
+				switch x := in.(type) {
+				case *ssa.TypeAssert:
+					if p, ok := x.AssertedType.(*types.Pointer); ok && c.libNamedIs(p.Elem(), "query", "field") {
+						hasField = true
+					}
+				case *ssa.Call:
+					if calleeFullName(x) == "strings.HasPrefix" {
+						if s, ok := constString(x.Common().Args[1]); ok && s == "$" {
+							hasDollar = true
+						}
+					}
+				}
+			}
+		}
+	}
+	return hasField && hasDollar
+}
+
+// PLAN8: an index range is derived only from a literal operand. Every call of
+// the criteria->range table is guarded by the false edge of a field-reference
+// predicate applied to the same criteria's Value.
+func rulePLAN8(c *Ctx) []Ob {
+	o := newObs(c, "PLAN8")
+	n := 0
+	for _, fn := range c.LibFuncs {
+		if c.pkgRel(fn) != "" {
+			continue
+		}
+		allCalls(fn, func(call ssa.CallInstruction) {
+			g := staticCallee(call)
+			if g == nil || !c.IsLib(g) || c.pkgRel(g) != "" || g.Signature.Results().Len() != 1 {
+				return
+			}
+			rp, ok := g.Signature.Results().At(0).Type().(*types.Pointer)
+			if !ok || !c.libNamedIs(rp.Elem(), "index", "Range") || g.Signature.Params().Len() != 1 {
+				return
+			}
+			pp, ok := g.Signature.Params().At(0).Type().(*types.Pointer)
+			if !ok || !c.libNamedIs(pp.Elem(), "query", "UnaryCriteria") {
+				return
+			}
+			n++
+			crit := call.Common().Args[0]
+			key := c.fname(fn) + "/range from literal operand only"
+			pos := relPath(c, call.Pos())
+			guards := guardEdges(fn, func(cond ssa.Value, branch bool) bool {
+				pc, ok := cond.(*ssa.Call)
+				if !ok {
+					return false
+				}
+				pf := staticCallee(pc)
+				if pf == nil || !c.isFieldRefPredicate(c.declared(pf)) {
+					return false
+				}
+				for _, og := range origins(pc.Common().Args[0]) {
+					base, f, nm := fieldLoad(og)
+					if f == "Value" && nm != nil && c.libNamedIs(nm, "query", "UnaryCriteria") && (base == crit || sameOrigin(base, crit)) {
+						return !branch
+					}
+				}
+				return false
+			})
+			// the guard may also sit at the top of the table function itself
+			inside := false
+			if !guardedBy(fn, call.Block(), guards) {
+				tg := guardEdges(g, func(cond ssa.Value, branch bool) bool {
+					pc, ok := cond.(*ssa.Call)
+					if !ok {
+						return false
+					}
+					pf := staticCallee(pc)
+					return pf != nil && c.isFieldRefPredicate(c.declared(pf)) && !branch
+				})
+				inside = len(tg) > 0
+				for _, ret := range returnsOf(g) {
+					rv, ok := returnedValue(ret, 0)
+					if ok && !isNilConst(rv) && !guardedBy(g, ret.Block(), tg) {
+						inside = false
+					}
+				}
+			}
+			if guardedBy(fn, call.Block(), guards) || inside {
+				o.add(OK, key, pos, "the range table is consulted only when the operand is not a field reference (Field(..) or \"$name\")")
+			} else {
+				o.add(VIOLATED, key, pos, "an index range is derived from the criteria's operand without excluding field references: for `x > Field(\"y\")` / `x > \"$y\"` the bound is the reference itself, so the indexed query returns nothing, fails in the key encoder, or panics in Range.Intersect, while the un-indexed query is right")
+			}
+		})
+	}
+	if n == 0 {
+		o.add(UNDECIDED, "range-table", "-", "no call of a criteria->range function found")
+	}
+	return o.list
+}
+
+// ---------------------------------------------------------------- NIL2
+
+// NIL2: a (ptr, error) library function that can return (nil, nil) - "not
+// found" - has its pointer result nil-tested before it is dereferenced or
+// handed to other code (returning it to the caller is a pass-through).
+func ruleNIL2(c *Ctx) []Ob {
+	o := newObs(c, "NIL2")
+	nilnil := map[*ssa.Function]bool{}
+	for _, fn := range c.LibFuncs {
+		res := fn.Signature.Results()
+		ei := errResultIndex(fn.Signature)
+		if res.Len() < 2 || ei < 0 {
+			continue
+		}
+		if _, ok := res.At(0).Type().Underlying().(*types.Pointer); !ok {
+			continue
+		}
+		for _, ret := range returnsOf(fn) {
+			pv, ok1 := returnedValue(ret, 0)
+			ev, ok2 := returnedValue(ret, ei)
+			if !ok1 || !ok2 {
+				continue
+			}
+			isNil := false
+			for _, og := range origins(pv) {
+				if isNilConst(og) {
+					isNil = true
+				}
+			}
+			if isNil && !c.provablyNonNil(fn, ev, ret.Block()) {
+				nilnil[fn] = true
+			}
+		}
+	}
+	for _, fn := range c.LibFuncs {
+		for _, b := range fn.Blocks {
+			for _, in := range b.Instrs {
+				call, ok := in.(*ssa.Call)
+				if !ok {
+					continue
+				}
+				g := staticCallee(call)
+				if g == nil || !nilnil[c.declared(g)] {
+					continue
+				}
+				g = c.declared(g)
+				ps := resultValues(call, 0)
+				if len(ps) == 0 {
+					continue
+				}
+				p := ps[0]
+				key := c.fname(fn) + "/" + c.fname(g) + " result nil-tested"
+				pos := relPath(c, call.Pos())
+				guards := nonNilEdges(fn, sameValue(p))
+				bad := ""
+				for _, r := range realReferrers(p) {
+					switch x := r.(type) {
+					case *ssa.Return, *ssa.Store, *ssa.Phi, *ssa.MakeInterface:
+						continue
+					case *ssa.BinOp:
+						continue // the nil test itself
+					case ssa.CallInstruction:
+						_ = x
+					}
+					if !guardedBy(fn, r.Block(), guards) {
+						bad = relPath(c, r.Pos())
+					}
+				}
+				if bad != "" {
+					o.add(VIOLATED, key, pos, "%s returns (nil, nil) for an absent record; its result is used at %s without a nil test: a stale or foreign index entry (or a concurrent delete) makes the operation panic instead of skipping the entry", c.fname(g), bad)
+				} else {
+					o.add(OK, key, pos, "the possibly-nil result is only returned as is or used behind a nil test")
+				}
+			}
+		}
+	}
+	return o.list
+}
+
+// ---------------------------------------------------------------- IMP1
+
+// IMP1: import builds documents from decoded JSON objects with verbatim keys:
+// nothing reachable from ImportCollection routes data-derived keys through
+// Document.Set/SetAll, which interpret '.' as a path separator.
+func ruleIMP1(c *Ctx) []Ob {
+	o := newObs(c, "IMP1")
+	imp := c.lookupMethod("", "DB", "ImportCollection")
+	if imp == nil {
+		o.add(UNDECIDED, "DB.ImportCollection", "-", "not found")
+		return o.list
+	}
+	setM := c.lookupMethod("document", "Document", "Set")
+	setAll := c.lookupMethod("document", "Document", "SetAll")
+	n := 0
+	bad := ""
+	allCalls(imp, func(call ssa.CallInstruction) {
+		g := staticCallee(call)
+		if g == nil {
+			return
+		}
+		g = c.declared(g)
+		if g == setAll {
+			bad = relPath(c, call.Pos())
+		}
+		if g == setM {
+			if _, isConst := stripConv(call.Common().Args[1]).(*ssa.Const); !isConst {
+				bad = relPath(c, call.Pos())
+			}
+		}
+		if g == c.lookupFunc("document", "NewDocumentOf") {
+			n++
+		}
+	})
+	for _, cf := range imp.AnonFuncs {
+		allCalls(cf, func(call ssa.CallInstruction) {
+			if g := staticCallee(call); g != nil && (c.declared(g) == setAll) {
+				bad = relPath(c, call.Pos())
+			}
+		})
+	}
+	key := "DB.ImportCollection/verbatim field names"
+	switch {
+	case bad != "":
+		o.add(VIOLATED, key, bad, "imported objects are filled through Document.Set/SetAll, which split field names at '.': a top-level field \"example.com\" comes back as {\"example\": {\"com\": ..}}, so the imported field set differs from the exported one")
+	case n == 0:
+		o.add(UNDECIDED, key, relPath(c, imp.Pos()), "ImportCollection no longer converts decoded objects with document.NewDocumentOf; how keys are treated was not established")
+	default:
+		o.add(OK, key, relPath(c, imp.Pos()), "decoded objects become documents through NewDocumentOf (keys kept verbatim)")
+	}
+	return o.list
+}
+
+// ---------------------------------------------------------------- BULK1
+
+// BULK1: a bulk mutation evaluates exactly the query it was given: in a
+// function that runs a scan and then performs destructive writes, the query
+// handed to the scan is the function's own *query.Query parameter (possibly
+// through a helper that only replaces the criteria by Where).
+func ruleBULK1(c *Ctx) []Ob {
+	o := newObs(c, "BULK1")
+	isQuery := func(t types.Type) bool {
+		p, ok := t.(*types.Pointer)
+		return ok && c.libNamedIs(p.Elem(), "query", "Query")
+	}
+	whereM := c.lookupMethod("query", "Query", "Where")
+	var okValue func(fn *ssa.Function, v ssa.Value, depth int) (bool, string)
+	okValue = func(fn *ssa.Function, v ssa.Value, depth int) (bool, string) {
+		if depth > 4 {
+			return false, "too deep"
+		}
+		for _, og := range origins(v) {
+			switch x := og.(type) {
+			case *ssa.Parameter:
+				continue
+			case *ssa.Call, *ssa.Extract:
+				var call *ssa.Call
+				idx := 0
+				if ex, isEx := x.(*ssa.Extract); isEx {
+					call, _ = ex.Tuple.(*ssa.Call)
+					idx = ex.Index
+				} else {
+					call = x.(*ssa.Call)
+				}
+				if call == nil {
+					return false, "a value of unknown provenance"
+				}
+				g := staticCallee(call)
+				if g == nil {
+					return false, "the result of a dynamic call"
+				}
+				g = c.declared(g)
+				if g == whereM {
+					if ok, why := okValue(fn, call.Common().Args[0], depth+1); !ok {
+						return false, why
+					}
+					continue
+				}
+				if !c.IsLib(g) || c.pkgRel(g) != "" {
+					return false, "the result of " + c.calleeName(call)
+				}
+				// a helper: every query it returns must be its parameter, possibly with Where applied
+				for _, ret := range returnsOf(g) {
+					rv, ok := returnedValue(ret, idx)
+					if !ok || isNilConst(rv) {
+						continue
+					}
+					if ok, why := okValue(g, rv, depth+1); !ok {
+						return false, c.fname(g) + " returns " + why
+					}
+				}
+			default:
+				return false, "a rebuilt query (" + describeValue(c, og) + ")"
+			}
+		}
+		return true, ""
+	}
+	for _, fn := range c.LibFuncs {
+		if c.pkgRel(fn) != "" || fn.Parent() != nil {
+			continue
+		}
+		if c.localEffOnly(fn)&EffDestructive == 0 && c.eff(fn)&EffUserUpdater == 0 {
+			continue
+		}
+		hasQueryParam := false
+		for _, p := range fn.Params {
+			if isQuery(p.Type()) {
+				hasQueryParam = true
+			}
+		}
+		if !hasQueryParam {
+			continue // builds its own "all documents" query (collection drop)
+		}
+		allCalls(fn, func(call ssa.CallInstruction) {
+			if c.calleeEff(call)&EffCursor == 0 {
+				return
+			}
+			for _, a := range call.Common().Args {
+				if !isQuery(a.Type()) {
+					continue
+				}
+				key := c.fname(fn) + "/scan evaluates the given query"
+				pos := relPath(c, call.Pos())
+				if ok, why := okValue(fn, a, 0); ok {
+					o.add(OK, key, pos, "the scan is run on the function's own query parameter (criteria replacement by Where only)")
+				} else {
+					o.add(VIOLATED, key, pos, "the bulk mutation scans %s instead of the query it was given: dropping or changing sort/skip/limit selects other documents than FindAll returns for the same query", why)
+				}
+			}
+		})
+	}
+	return o.list
+}
+
+// localEffOnly: effects of fn's own instructions and of its static library
+// callees, but not of closures it merely creates.
+func (c *Ctx) localEffOnly(fn *ssa.Function) Eff {
+	var e Eff
+	allCalls(fn, func(call ssa.CallInstruction) {
+		e |= c.calleeEff(call)
+	})
+	return e
 }
